@@ -1,5 +1,6 @@
 /* Correspondence harness for the codec group: varint (C14), CRC-16/ARC (C16), endian codecs (C15). */
 #include "common.h"
+#include <sys/mman.h>
 
 #include <ufw/byte-buffer.h>
 #include <ufw/endpoints.h>
@@ -192,6 +193,21 @@ crc_op(int argc, char **argv)
         if (dep) snprintf(out, sizeof out, "%04x depends-on-alignment-or-split:%d", ref, dep);
         else snprintf(out, sizeof out, "%04x", ref);
         free(buf);
+    } else if (strcmp(op, "crc.huge") == 0 && argc == 4) {
+        /* a buffer beyond 32 bits of length (address space only, a few octets set): the checksum of the whole must equal
+         * the checksum continued over its two parts, each of which is shorter than 2^32 - the concatenation law of the
+         * statement, the implementation against itself */
+        uint16_t init = (uint16_t)strtoul(argv[1], NULL, 16);
+        size_t n = parse_u64(argv[2]), split = parse_u64(argv[3]);
+        alarm(900);      /* three passes over gigabytes: more than the per-case watchdog allows */
+        unsigned char *m = mmap(NULL, n, PROT_READ | PROT_WRITE, MAP_PRIVATE | MAP_ANONYMOUS | MAP_NORESERVE, -1, 0);
+        if (m == MAP_FAILED || split > n) { printf("bad-op"); return; }
+        for (size_t i = 0; i < n; i += (n / 61) | 1) m[i] = (unsigned char)(i * 2654435761u >> 7);
+        uint16_t whole = ufw_crc16_arc(init, m, n);
+        uint16_t a = ufw_crc16_arc(init, m, split);
+        uint16_t b = ufw_crc16_arc(a, m + split, n - split);
+        munmap(m, n);
+        snprintf(out, sizeof out, "split=%s", whole == b ? "same" : "differs");
     } else if (strcmp(op, "crc.initial") == 0 && argc == 2) {
         size_t n; unsigned char *buf = parse_hex(argv[1], &n);
         if (!buf) { printf("bad-op"); return; }
